@@ -277,6 +277,7 @@ def reference(fn_plain, first_obj, args, kwargs, in_specs, options, out_specs,
     sig = inspect.signature(fn_plain)
     ba = sig.bind(*full, **kwargs)
     rejects = []
+    in_new_object = []   # inputs whose validate() returned another object
     for name, validator in in_specs:
         if name not in ba.arguments:
             continue
@@ -290,6 +291,8 @@ def reference(fn_plain, first_obj, args, kwargs, in_specs, options, out_specs,
                                       for k, x in v.items()}
             else:
                 ba.arguments[name] = validator(v, options)
+                if v is not None and ba.arguments[name] is not v:
+                    in_new_object.append(name)
         except Reject as r:
             rejects.append(r.errors)
     if rejects:
@@ -305,13 +308,23 @@ def reference(fn_plain, first_obj, args, kwargs, in_specs, options, out_specs,
         if is_async:
             res = loop().run_until_complete(res)
     except BodyError as e:
-        return {"called": True, "outcomes": [("raise", exc_norm(e))]}
+        return {"called": True, "outcomes": [("raise", exc_norm(e))],
+                "in_new_object": in_new_object}
     raw = desc(res)
+    body_result = res    # the object the body returned (async check_output)
+    new_object = []      # getters whose validate() returned another object
+    changed = []
     try:
         for getter, schema_factory, replace in out_specs:
             obj = res if getter is None else (
                 getter(res) if callable(getter) else res[getter])
             parsed = _validate(schema_factory(), obj, options)
+            if parsed is not obj:
+                new_object.append(getter)
+                if getter is not None and S.snap(parsed) != S.snap(obj):
+                    # ... and the object it was given is not what it
+                    # returned: putting back / leaving in place shows
+                    changed.append(getter)
             if not replace:
                 continue
             if getter is None:
@@ -322,8 +335,15 @@ def reference(fn_plain, first_obj, args, kwargs, in_specs, options, out_specs,
             else:
                 res[getter] = parsed
     except Exception as e:   # whatever validate raises reaches the caller
-        return {"called": True, "outcomes": [("raise", exc_norm(e))]}
-    return {"called": True, "outcomes": [("return", desc(res))], "raw": ("return", raw)}
+        return {"called": True, "outcomes": [("raise", exc_norm(e))],
+                "in_new_object": in_new_object}
+    return {"called": True, "outcomes": [("return", desc(res))],
+            "raw": ("return", raw),
+            # ... in the state in-place validation left it in
+            "raw_after": ("return", desc(body_result)),
+            "out_new_object": new_object,
+            "out_parsed_differs": changed,
+            "in_new_object": in_new_object}
 
 
 def schema_validator(schema_factory):
@@ -339,7 +359,7 @@ def schema_validator(schema_factory):
 
 
 # ------------------------------------------------------------------ scenario
-def gen_schema_spec(rng, backend, series=False):
+def gen_schema_spec(rng, backend, series=False, parse_heavy=False):
     neutral = backend == "polars"
     spec = G.gen_spec(rng, neutral=neutral, kind="series" if series else "frame",
                       max_cols=3, allow_index=False, allow_regex=False,
@@ -350,10 +370,79 @@ def gen_schema_spec(rng, backend, series=False):
             c["required"] = True
             if c["dtype"] in ("int64", "float64") and rng.random() < 0.45:
                 c["coerce"] = True
+        add_parse_features(rng, spec, backend, parse_heavy)
     else:
-        if spec["field"]["dtype"] in ("int64", "float64") and rng.random() < 0.4:
+        if spec["field"]["dtype"] in ("int64", "float64") and (
+                parse_heavy or rng.random() < 0.4):
             spec["field"]["coerce"] = True
     return spec
+
+
+def add_parse_features(rng, spec, backend, force=False):
+    """Schema features whose ``validate`` hands back *another object* than it
+    was given, also with ``inplace=True`` (on pandas: frame-level dtype
+    coercion, add_missing_columns, a dataframe-level parser; column-level
+    coercion really happens in place; a polars validate never returns its
+    argument): the decorator has to pass on / put back what validate
+    returned, not what it was given.  Recorded in spec["c17_features"]."""
+    feats = []
+    cols = spec["columns"]
+    numeric = [c for c in cols if c["dtype"] in ("int64", "float64")]
+    if spec.get("dtype") and rng.random() < 0.6:
+        spec["coerce"] = True
+        feats.append("frame-dtype-coerce")
+    elif rng.random() < 0.12:
+        spec["coerce"] = True
+        feats.append("frame-coerce")
+    if len(cols) >= 2 and rng.random() < 0.15:
+        c = rng.choice(cols)
+        ok = [x for x in G.satisfying(c) if x is not None]
+        if ok:
+            c["default"] = rng.choice(ok)
+            spec["add_missing_columns"] = True
+            spec["c17_omit"] = c["name"]
+            feats.append("add-missing-columns")
+    if backend == "pandas" and numeric and rng.random() < 0.12:
+        spec["c17_df_parser"] = "abs-of-numeric-columns"
+        feats.append("dataframe-parser")
+    if force and not [f for f in feats if f != "frame-coerce"]:
+        # parse-heavy scenario: make sure one of them is there
+        cands = []
+        if backend == "pandas" and numeric:
+            cands.append("dataframe-parser")
+            if len(numeric) == len(cols) and not spec.get("checks"):
+                cands += ["frame-dtype-coerce"] * 2
+        if backend == "polars" and numeric:
+            cands.append("column-coerce")
+        defaultable = [c for c in cols
+                       if [x for x in G.satisfying(c) if x is not None]]
+        if len(cols) >= 2 and defaultable:
+            cands.append("add-missing-columns")
+        if cands:
+            f = rng.choice(cands)
+            if f == "dataframe-parser":
+                spec["c17_df_parser"] = "abs-of-numeric-columns"
+            elif f == "frame-dtype-coerce":
+                spec["dtype"] = rng.choice(["int64", "float64"])
+                spec["coerce"] = True
+            elif f == "column-coerce":
+                rng.choice(numeric)["coerce"] = True
+            else:
+                c = rng.choice(defaultable)
+                c["default"] = rng.choice(
+                    [x for x in G.satisfying(c) if x is not None])
+                spec["add_missing_columns"] = True
+                spec["c17_omit"] = c["name"]
+            if f != "column-coerce":
+                feats.append(f)
+    spec["c17_features"] = feats
+
+
+def parses(spec):
+    """the schema coerces somewhere"""
+    if spec["kind"] == "series":
+        return bool(spec["field"].get("coerce"))
+    return bool(spec.get("coerce")) or any(c.get("coerce") for c in spec["columns"])
 
 
 def corrupt_rows(rng, spec, table, rows):
@@ -381,6 +470,10 @@ def gen_table_for(rng, spec, options, validity):
     n = rng.choice([3, 4, 5, 6])
     table = G.gen_table(rng, sp, nrows=n)
     note = validity
+    if sp.get("c17_omit") and len(table["columns"]) > 1 and rng.random() < 0.7:
+        # the column add_missing_columns has to supply from its default
+        table["columns"] = [c for c in table["columns"]
+                            if c["name"] != sp["c17_omit"]]
     if validity == "invalid":
         if not G.mutate(rng, sp, table, k=1):
             corrupt_rows(rng, sp, table, [rng.randrange(n)])
@@ -396,13 +489,15 @@ def gen_table_for(rng, spec, options, validity):
         # values stay valid, physical dtype of coerce columns is changed
         fields = [sp["field"]] if sp["kind"] == "series" else sp["columns"]
         for fs in fields:
-            if fs.get("coerce"):
+            if fs.get("coerce") or sp.get("coerce"):
+                target = sp.get("dtype") or fs["dtype"]
                 for c in table["columns"]:
-                    if c["name"] == fs["name"] and all(v is not None for v in c["values"]):
-                        if fs["dtype"] == "int64":
+                    if c["name"] == fs["name"] and all(v is not None for v in c["values"]) \
+                            and c["phys"] == G.PHYS_OF.get(target):
+                        if target == "int64":
                             c["values"] = [float(v) for v in c["values"]]
                             c["phys"] = "float64"
-                        elif fs["dtype"] == "float64" and all(
+                        elif target == "float64" and all(
                                 float(v).is_integer() and abs(v) < 2 ** 31
                                 for v in c["values"]):
                             c["values"] = [int(v) for v in c["values"]]
@@ -419,17 +514,32 @@ def gen_options(rng):
         k = rng.choice(["head", "tail", "sample", "lazy", "inplace", "lazy",
                         "head", "inplace"])
         if k in ("head", "tail"):
-            o[k] = rng.choice([1, 2, 3])
+            # 0 is a set option (validate the columns and no row), not "unset"
+            o[k] = rng.choice([0, 1, 1, 2, 2, 3])
         elif k == "sample":
-            o["sample"] = rng.choice([1, 2, 3])
+            o["sample"] = rng.choice([0, 1, 1, 2, 2, 3])
             o["random_state"] = rng.choice([0, 1, 7])
         else:
             o[k] = True
     return o
 
 
+def _abs_of_numeric_columns(df):
+    import pandas as pd
+    cols = {c: df[c].abs() for c in df.columns
+            if pd.api.types.is_numeric_dtype(df[c].dtype)
+            and not pd.api.types.is_bool_dtype(df[c].dtype)}
+    return df.assign(**cols)          # always another object
+
+
 def build_schema(spec, backend):
-    return B.polars_schema(spec) if backend == "polars" else B.pandas_schema(spec)
+    if backend == "polars":
+        return B.polars_schema(spec)
+    schema = B.pandas_schema(spec)
+    if spec.get("c17_df_parser"):
+        import pandera as pa
+        schema.parsers = [pa.Parser(_abs_of_numeric_columns)]
+    return schema
 
 
 def build_data(spec, table, backend):
